@@ -194,6 +194,10 @@ func onRuleUpdate(rawResRulesMap map[string][]*Rule) (err error) {
 			}
 		}
 	}()
+	// what this load changes in the rule-in-force table takes effect when its result is published
+	beginRuleInForceEdits()
+	published := false
+	defer func() { endRuleInForceEdits(published) }()
 
 	// ignore invalid rules
 	validResRulesMap := make(map[string][]*Rule, len(rawResRulesMap))
@@ -235,6 +239,7 @@ func onRuleUpdate(rawResRulesMap map[string][]*Rule) (err error) {
 	tcMux.Lock()
 	tcMap = m
 	tcMux.Unlock()
+	published = true
 
 	currentRules = rawResRulesMap
 
@@ -253,6 +258,10 @@ func onResourceRuleUpdate(res string, rawResRules []*Rule) (err error) {
 			}
 		}
 	}()
+	// what this load changes in the rule-in-force table takes effect when its result is published
+	beginRuleInForceEdits()
+	published := false
+	defer func() { endRuleInForceEdits(published) }()
 
 	validResRules := make([]*Rule, 0, len(rawResRules))
 	for _, rule := range rawResRules {
@@ -278,6 +287,7 @@ func onResourceRuleUpdate(res string, rawResRules []*Rule) (err error) {
 		tcMap[res] = newResTcs
 	}
 	tcMux.Unlock()
+	published = true
 
 	// keep a copy of the list: the caller may go on using its slice (replace an element and load it
 	// again), and a slice compared with itself always looks unchanged
